@@ -163,7 +163,7 @@ theorem findSAssoc_filter (as : List SAssoc) (t t' : Bytes) :
     findSAssoc (as.filter fun a => a.token ≠ t') t = if t = t' then none else findSAssoc as t :=
   find_filter_key (fun a : SAssoc => a.token) as t t'
 
-/-- a request that does not verify leaves `session->associations` as it is (fix 9631fdc) -/
+/-- a request that does not verify leaves `session->associations` as it is (fix b3c6528) -/
 theorem srvDecrypt_unverified (s : Srv) (t : Bytes) (pos : RPos) (aad nonce piv : Bytes) (o : Bool) :
     (srvDecrypt s t pos aad nonce piv false o).as = s.as := rfl
 
@@ -316,7 +316,7 @@ theorem findSAssoc_run_ne (steps : List SrvStep) (t : Bytes) (h : ∀ x ∈ step
     exact findSAssoc_step_ne s x t (h x List.mem_cons_self)
 
 /-- a step that leaves the association of token `t` alone: it concerns another token, or it is a request (with whatever
-token, also `t`) that does not verify (fix 9631fdc) -/
+token, also `t`) that does not verify (fix b3c6528) -/
 def SrvStepLeaves (t : Bytes) : SrvStep → Prop
   | .decrypt t' _ _ _ _ v _ => t' ≠ t ∨ v = false
   | .protect t' => t' ≠ t
